@@ -111,7 +111,8 @@ func (w *localDefWalker) walkSignature(decl *ast.FuncDecl) {
 			}
 		}
 	}
-	if decl.Recv != nil && len(decl.Recv.List[0].Names) != 0 {
+	// An empty receiver list is a syntax error, but the parser still produces the declaration.
+	if decl.Recv != nil && len(decl.Recv.List) != 0 && len(decl.Recv.List[0].Names) != 0 {
 		def := Name{ID: decl.Recv.List[0].Names[0], Kind: NameParam}
 		w.visitor.VisitLocalDef(def, nil)
 	}
